@@ -28,7 +28,7 @@ func runC14(p *an.Prog, r *an.Run, tier string) {
 	serve := p.Method("jsonrpc2", "Remote", "Serve")
 	recv := p.Method("jsonrpc2", "Remote", "receive")
 	gpc := p.Method("jsonrpc2", "Remote", "getPendingChan")
-	hr := p.Method("jsonrpc2", "Remote", "handleRequest")
+	hr := requestHandlerOf(p)
 	lcall := p.Method("jsonrpc2", "Local", "Call")
 	ctxSvc := p.Func("jsonrpc2", "CtxService")
 	creq := p.Method("jsonrpc2", "Client", "Request")
@@ -104,7 +104,7 @@ func runC14(p *an.Prog, r *an.Run, tier string) {
 	var goHR *ssa.Go
 	var syncHR ssa.CallInstruction
 	for _, c := range an.Calls(serve, false) {
-		if c.Common().StaticCallee() == hr {
+		if calleeIs(c, hr) {
 			if g, ok := c.(*ssa.Go); ok {
 				goHR = g
 			} else {
@@ -131,7 +131,13 @@ func runC14(p *an.Prog, r *an.Run, tier string) {
 			bad = append(bad, "Serve handles requests synchronously in the read loop: a handler that calls back over the same connection waits for a reply nobody reads (deadlock)")
 		}
 		if goHR != nil {
-			if goHR.Call.Args[1] != msg {
+			passed := false
+			for _, a := range goHR.Call.Args {
+				if a == msg {
+					passed = true
+				}
+			}
+			if !passed {
 				bad = append(bad, "the message dispatched is not the message read")
 			}
 			// only messages with a Request part
@@ -309,7 +315,7 @@ func runC14(p *an.Prog, r *an.Run, tier string) {
 		if mi, ok := val.(*ssa.MakeInterface); ok {
 			val = mi.X
 		}
-		if val != ssa.Value(fn.Params[0]) {
+		if !isOwnReceiver(fn, val) {
 			bad = append(bad, an.FuncName(fn)+" stores something other than its own connection in the context")
 		}
 		okPass := false
@@ -583,4 +589,97 @@ func poolMapAccessesIn(p *an.Prog, fn *ssa.Function, field string) []mapAccess {
 		}
 	}
 	return out
+}
+
+// requestHandlerOf returns the function that serves one incoming request of a Remote: the method handleRequest, or —
+// when it was inlined into Serve — the function literal that Serve starts (or calls) and that invokes Server.Handle.
+func requestHandlerOf(p *an.Prog) *ssa.Function {
+	if hr := p.Method("jsonrpc2", "Remote", "handleRequest"); hr != nil {
+		return hr
+	}
+	serve := p.Method("jsonrpc2", "Remote", "Serve")
+	if serve == nil {
+		return nil
+	}
+	for _, c := range an.Calls(serve, false) {
+		var fn *ssa.Function
+		switch v := c.Common().Value.(type) {
+		case *ssa.MakeClosure:
+			fn, _ = v.Fn.(*ssa.Function)
+		case *ssa.Function:
+			fn = v
+		}
+		if fn == nil {
+			continue
+		}
+		for _, cc := range an.Calls(fn, false) {
+			if f := an.CallObj(cc); f != nil && f.Name() == "Handle" {
+				return fn
+			}
+		}
+	}
+	return nil
+}
+
+func calleeIs(c ssa.CallInstruction, fn *ssa.Function) bool {
+	if fn == nil {
+		return false
+	}
+	if c.Common().StaticCallee() == fn {
+		return true
+	}
+	if mc, ok := c.Common().Value.(*ssa.MakeClosure); ok && mc.Fn == ssa.Value(fn) {
+		return true
+	}
+	return false
+}
+
+// isOwnReceiver: v is the receiver of fn, or — for a function literal — the receiver of the method it is nested in
+// (captured by reference: *freevar, bound to the spilled receiver).
+func isOwnReceiver(fn *ssa.Function, v ssa.Value) bool {
+	if fn.Parent() == nil {
+		return len(fn.Params) > 0 && an.Unspill(v) == ssa.Value(fn.Params[0])
+	}
+	outer := fn
+	for outer.Parent() != nil {
+		outer = outer.Parent()
+	}
+	if outer.Signature.Recv() == nil || len(outer.Params) == 0 {
+		return false
+	}
+	var fv *ssa.FreeVar
+	switch x := v.(type) {
+	case *ssa.FreeVar:
+		fv = x
+	case *ssa.UnOp:
+		if x.Op == token.MUL {
+			fv, _ = x.X.(*ssa.FreeVar)
+		}
+	}
+	if fv == nil {
+		return false
+	}
+	idx := -1
+	for i, f := range fn.FreeVars {
+		if f == fv {
+			idx = i
+		}
+	}
+	ok := false
+	an.AllInstrs(fn.Parent(), func(in ssa.Instruction) {
+		mc, isMC := in.(*ssa.MakeClosure)
+		if !isMC || mc.Fn != ssa.Value(fn) || idx < 0 || idx >= len(mc.Bindings) {
+			return
+		}
+		b := mc.Bindings[idx]
+		if b == ssa.Value(outer.Params[0]) {
+			ok = true
+		}
+		if al, isAl := b.(*ssa.Alloc); isAl {
+			if an.Unspill(&ssa.UnOp{Op: token.MUL, X: al}) == ssa.Value(outer.Params[0]) {
+				ok = true
+			}
+		}
+	})
+	return ok
 }
